@@ -363,7 +363,7 @@ def trace_values(w, mod, h, timeout=900):
     # sliced out of the trace -- it can hold anything, so pad with zeros
     if all(len(v) == 1 for v in vals) and len(vals) in (160, 96):
         vals = (vals + [[0]] * 96) if len(vals) == 160 else ([[0]] * 160 + vals)
-    lines = ['#[test]', 'fn kani_concrete_playback_%s_verif() {' % h.name, '    extern crate std;', '    let concrete_vals: std::vec::Vec<std::vec::Vec<u8>> = std::vec![']
+    lines = ['#[test]', '#[allow(rust_2018_idioms, unused_extern_crates)]', 'fn kani_concrete_playback_%s_verif() {' % h.name, '    extern crate std;', '    let concrete_vals: std::vec::Vec<std::vec::Vec<u8>> = std::vec![']
     for v in vals:
         lines.append('        std::vec![%s],' % ', '.join(str(x) for x in v))
     lines += ['    ];', '    kani::concrete_playback_run(concrete_vals, %s);' % h.name, '}']
